@@ -77,6 +77,7 @@ class Lab:
         self.fault_msg = None
         self.fail_as_attribute_error = False
         self.ledger_msg = []  # the message in flight at each device call
+        self.status_of_call = {}
         self.inflight = None
         self.pending = []  # statuses not yet finished: (status, finish_at virtual time)
         self.out = io.StringIO()
@@ -171,6 +172,7 @@ class Lab:
 
     def status(self, j, delay=0.0):
         st = FakeStatus()
+        self.status_of_call[j] = st
         ok = self.fail_status != j
         exc = None if ok else DeviceError(f"status of call {j} failed")
         if not ok:
